@@ -381,6 +381,8 @@ fn format(opt: opt::Opt) -> Result<i32> {
                         Some(ErrorFileWrapper { file, error }) => {
                             match error.downcast_ref::<stylua_lib::Error>() {
                                 Some(stylua_lib::Error::ParseError(err)) => {
+                                    // This error does not go through the logger, so record the failure here
+                                    EXIT_CODE.fetch_max(2, Ordering::SeqCst);
                                     let structured_err =
                                         convert_parse_error_to_json(file, err.to_vec());
                                     // Force write to stderr directly
